@@ -594,8 +594,9 @@ class ReplayCtx:
             return True
         for fid, region in known:
             if fid in self.known_open and bool(region):
+                # a recorded finding: noted, and the run goes on (as the symbolic run does after carving the region out)
                 self.known_hits.append((fid, label, None, detail))
-                raise ViolationFound(label)
+                return True
         self.violations.append((label, None, detail))
         raise ViolationFound(label)
 
